@@ -162,10 +162,20 @@ def check_graph(n, edges, order, acc, tier):
                 bad('subgraph-exception', Xs, exp, res[1:])
             elif snap(res[1]) != exp:
                 bad('subgraph', Xs, exp, snap(res[1]))
-        res = call(G.get_subgraph, sorted(X))
         exp = (sorted(X), sorted((s, d) for (s, d) in eset if s in X and d in X))
-        if res[0] != 'ok' or snap(res[1]) != exp:
-            bad('subgraph-list-arg', X, exp, res[1:] if res[0] != 'ok' else snap(res[1]))
+        for form, arg in (('list', sorted(X)), ('tuple', tuple(sorted(X, reverse=True))),
+                          ('frozenset', frozenset(X)), ('dict-keys', dict((x, 1) for x in X).keys())):
+            res = call(G.get_subgraph, arg)
+            if res[0] != 'ok' or snap(res[1]) != exp:
+                bad('subgraph-%s-arg' % form, X, exp, res[1:] if res[0] != 'ok' else snap(res[1]))
+        expr = set(X) | set(j for i in X for j in range(n) if r[i][j])
+        # re-iterable containers only: the statement speaks of a node SET (the documented parameter is
+        # "a container of nodes"); one-shot iterators are outside it, and the unchanged tree itself
+        # loses X when get_reachable_set_from is handed a generator
+        for form, arg in (('frozenset', frozenset(X)), ('dict-keys', dict((x, 1) for x in X).keys())):
+            res = call(G.get_reachable_set_from, arg)
+            if res[0] != 'ok' or set(res[1]) != expr:
+                bad('reach-%s-arg' % form, X, sorted(expr), res[1:] if res[0] != 'ok' else sorted(res[1]))
     after = snap(G)
     if after != before or dict((v, id(G._next[v])) for v in G._next) != ids_before:
         bad('G-modified', None, before, after)
